@@ -77,6 +77,9 @@ type c05Ans struct {
 	Blocks     int            `json:"blocks,omitempty"`
 	Rows       map[string]int `json:"rows,omitempty"` // rows per table since the last call
 	ElapsedMs  int            `json:"elapsed_ms,omitempty"`
+	// bytes the whole child process allocated on the heap (runtime.MemStats.TotalAlloc) between the moment the
+	// request was ready to be written to the socket and the moment its response had been read
+	Alloc uint64 `json:"alloc,omitempty"`
 }
 
 // ---- fake ClickHouse client: captures the blocks the insert services hand to Do
@@ -322,6 +325,8 @@ func c05ChildMain() {
 			t0 := time.Now()
 			a := c05Ans{ID: c.ID}
 			c05SrvLog.reset()
+			var ms0, ms1 runtime.MemStats
+			runtime.ReadMemStats(&ms0)
 			// Raw connection: the request is written while the response is read, so that a server answering
 			// before it has consumed a large body (and closing) still yields its status.
 			conn, err := net.DialTimeout("tcp", srv.Listener.Addr().String(), dl)
@@ -356,6 +361,8 @@ func c05ChildMain() {
 				}
 			}
 			conn.Close()
+			runtime.ReadMemStats(&ms1)
+			a.Alloc = ms1.TotalAlloc - ms0.TotalAlloc
 			a.ElapsedMs = int(time.Since(t0) / time.Millisecond)
 			emit(a)
 		}
